@@ -139,6 +139,7 @@ type Machine struct {
 	httpS     *httpSide
 	protoMsgs []protoMsg
 	hashes    map[string]Array
+	cborN     int
 	topicValidator Value
 	pinned    []ModelVal
 	coros     []*coro
